@@ -12,6 +12,7 @@ import (
 	"math/rand"
 	"sort"
 	"strings"
+	"sync"
 	"time"
 
 	"github.com/ava-labs/avalanchego/database"
@@ -97,6 +98,7 @@ type Scenario struct {
 	RootOK     bool     `json:"rootOk"`
 	TooLate    bool     `json:"tooLate"` // block timestamp is set beyond now + FutureBound at run time
 	VWDup      bool     `json:"vwDup"`   // the validity window reports a duplicate
+	FailKey    []byte   `json:"failKey"` // reading this key from the parent view returns an injected error (nil = none)
 	Txs        []TxIn   `json:"txs"`
 }
 
@@ -209,6 +211,48 @@ type Output struct {
 	Prices   [5]uint64   `json:"prices"`
 	Consumed [5]uint64   `json:"consumed"`
 	Root     string      `json:"root"`
+	Reads    [][]byte    `json:"reads"` // every key requested from the parent view, sorted, with multiplicity
+}
+
+var errInjectedRead = errors.New("injected parent read error")
+
+// recView wraps the parent view and records (and optionally fails) every GetValue.
+type recView struct {
+	merkledb.View
+	mu      sync.Mutex
+	reads   []string
+	failKey []byte
+}
+
+func (r *recView) GetValue(ctx context.Context, key []byte) ([]byte, error) {
+	r.mu.Lock()
+	r.reads = append(r.reads, string(key))
+	r.mu.Unlock()
+	if r.failKey != nil && string(r.failKey) == string(key) {
+		return nil, errInjectedRead
+	}
+	return r.View.GetValue(ctx, key)
+}
+
+func (r *recView) GetValues(ctx context.Context, keys [][]byte) ([][]byte, []error) {
+	vals := make([][]byte, len(keys))
+	errs := make([]error, len(keys))
+	for i, k := range keys {
+		vals[i], errs[i] = r.GetValue(ctx, k)
+	}
+	return vals, errs
+}
+
+func (r *recView) sortedReads() [][]byte {
+	r.mu.Lock()
+	defer r.mu.Unlock()
+	ss := append([]string{}, r.reads...)
+	sort.Strings(ss)
+	out := make([][]byte, len(ss))
+	for i, x := range ss {
+		out[i] = []byte(x)
+	}
+	return out
 }
 
 const (
@@ -245,6 +289,7 @@ const (
 	subFeeOverflow
 	subInsufficientBalance
 	subOther
+	subInjectedRead
 )
 
 func classify(err error) (uint64, uint64, string) {
@@ -304,6 +349,8 @@ func classifyTxErr(err error) uint64 {
 		return subActionNotActivated
 	case errors.Is(err, hchain.ErrAuthNotActivated):
 		return subAuthNotActivated
+	case errors.Is(err, errInjectedRead):
+		return subInjectedRead
 	case errors.Is(err, balance.ErrInsufficientBalance):
 		return subInsufficientBalance
 	case strings.Contains(txt, "overflow"):
@@ -456,13 +503,14 @@ func (s *Scenario) execute(cfg Config) (Output, error) {
 	p := hchain.NewProcessor(trace.Noop, &logging.NoLog{}, &genesis.ImmutableRuleFactory{Rules: s.Rules.toRules()}, w,
 		chaintest.NewDummyTestAuthEngines(), metadata.NewDefaultManager(), bh, vw, metrics, conf)
 
+	rv := &recView{View: db, failKey: s.FailKey}
 	type res struct {
 		ob  *hchain.OutputBlock
 		err error
 	}
 	ch := make(chan res, 1)
 	go func() {
-		ob, err := p.Execute(ctx, db, hchain.NewExecutionBlock(blk), true)
+		ob, err := p.Execute(ctx, rv, hchain.NewExecutionBlock(blk), true)
 		ch <- res{ob, err}
 	}()
 	var r res
@@ -473,6 +521,7 @@ func (s *Scenario) execute(cfg Config) (Output, error) {
 		return out, nil
 	}
 	out.ErrCls, out.ErrSub, out.ErrText = classify(r.err)
+	out.Reads = rv.sortedReads()
 	if r.err != nil {
 		return out, nil
 	}
@@ -603,6 +652,33 @@ func genAction(r *rand.Rand, sponsor int) *ScriptAction {
 			}
 		}
 	}
+	if r.Intn(4) == 0 {
+		// delete / re-create / delete chains on one fully declared key (the shapes that exercise the
+		// view's bookkeeping of allocations, explicit deletes and "unchanged" detection)
+		k := pick(r, dataKeys)
+		found := false
+		for i := range a.KeysB {
+			if string(a.KeysB[i]) == string(k) {
+				a.Perms[i] = state.All
+				found = true
+			}
+		}
+		if !found {
+			a.KeysB = append(a.KeysB, k)
+			a.Perms = append(a.Perms, state.All)
+		}
+		small := func() []byte { return []byte{byte(1 + r.Intn(3))} }
+		chains := [][]Op{
+			{{Kind: OpDel, Key: k, Val: []byte{}}, {Kind: OpPut, Key: k, Val: small()}, {Kind: OpDel, Key: k, Val: []byte{}}},
+			{{Kind: OpDel, Key: k, Val: []byte{}}, {Kind: OpPut, Key: k, Val: small()}, {Kind: OpPut, Key: k, Val: small()}, {Kind: OpDel, Key: k, Val: []byte{}}, {Kind: OpGet, Key: k, Val: []byte{}}},
+			{{Kind: OpPut, Key: k, Val: small()}, {Kind: OpDel, Key: k, Val: []byte{}}, {Kind: OpPut, Key: k, Val: small()}, {Kind: OpGet, Key: k, Val: []byte{}}},
+			{{Kind: OpDel, Key: k, Val: []byte{}}, {Kind: OpGet, Key: k, Val: []byte{}}, {Kind: OpPut, Key: k, Val: small()}},
+		}
+		a.Ops = append(a.Ops, pick(r, chains)...)
+		if r.Intn(4) == 0 {
+			a.Ops = append(a.Ops, Op{Kind: OpGet, Key: k, Val: []byte{}})
+		}
+	}
 	if r.Intn(300) == 0 {
 		a.Start = int64(r.Intn(3)) * 1_000_000
 	}
@@ -612,7 +688,7 @@ func genAction(r *rand.Rand, sponsor int) *ScriptAction {
 	return a
 }
 
-func genScenario(r *rand.Rand) *Scenario {
+func genScenario(r *rand.Rand, prop string) *Scenario {
 	s := &Scenario{RootOK: true}
 	def := genesis.NewDefaultRules()
 	s.Rules = RulesIn{
@@ -676,7 +752,13 @@ func genScenario(r *rand.Rand) *Scenario {
 	gap := pick(r, []int64{100, 100, 750, 1000, 1000, 2000, 9000, 10000, 11000, 25000, 99, 749})
 	s.BlockTs = int64(s.ParentTs) + gap
 	s.BlockH = s.ParentH + 1
-	switch r.Intn(40) {
+	hdr := r.Intn(40)
+	if prop == "C11" {
+		hdr = r.Intn(12) // headers are the subject: half of the blocks carry a header defect
+		gap = pick(r, []int64{99, 100, 101, 749, 750, 751, 1000, 0, -1000, 10000})
+		s.BlockTs = int64(s.ParentTs) + gap
+	}
+	switch hdr {
 	case 0:
 		s.BlockH = s.ParentH
 	case 1:
@@ -691,6 +773,12 @@ func genScenario(r *rand.Rand) *Scenario {
 		s.VWDup = true
 	}
 	ntx := pick(r, []int{0, 1, 2, 3, 4, 6, 8, 12, 20})
+	if prop == "C03" || prop == "C07" {
+		ntx = pick(r, []int{1, 1, 2, 2, 3, 4})
+	}
+	if prop == "C11" {
+		ntx = pick(r, []int{0, 0, 0, 1, 1, 2})
+	}
 	badTx := -1 // at most one tx with an injected static defect per block, in a quarter of the blocks
 	if ntx > 0 && r.Intn(4) == 0 {
 		badTx = r.Intn(ntx)
@@ -728,11 +816,22 @@ func genScenario(r *rand.Rand) *Scenario {
 			t.AuthEnd = s.BlockTs - 1
 		}
 		na := 1 + r.Intn(3)
+		if prop == "C03" {
+			na = 1 + r.Intn(4)
+		}
 		if inject == 7 {
 			na = int(s.Rules.MaxActions) + 1
 		}
 		for j := 0; j < na; j++ {
 			t.Actions = append(t.Actions, genAction(r, sp))
+		}
+		if prop == "C03" && r.Intn(3) == 0 {
+			// fail after earlier actions (and earlier ops of this action) already wrote and deleted keys
+			last := t.Actions[len(t.Actions)-1]
+			last.Ops = append(last.Ops, Op{Kind: OpFail, Key: []byte{}, Val: []byte{}})
+		}
+		if prop == "C07" {
+			t.MaxFee = pick(r, []uint64{0, 1, 1000, 20000, 100000, 1 << 30, ^uint64(0)})
 		}
 		if i == badTx && r.Intn(8) == 0 && len(t.Actions) > 0 {
 			// malformed declared key (too short to carry a chunk suffix)
@@ -740,6 +839,11 @@ func genScenario(r *rand.Rand) *Scenario {
 			t.Actions[0].Perms = append(t.Actions[0].Perms, state.Read)
 		}
 		s.Txs = append(s.Txs, t)
+	}
+	if prop == "C24" && r.Intn(3) == 0 {
+		// fault injection: one key of the universe (metadata, data or balance) cannot be read from the parent
+		cands := append(append([][]byte{}, metaKeys()...), universeKeys()...)
+		s.FailKey = pick(r, cands)
 	}
 	return s
 }
@@ -806,7 +910,7 @@ func (s *Scenario) coqTx(i int, tx *hchain.Transaction) string {
 
 func (o Output) coq() string {
 	if o.ErrCls != 0 {
-		return emit.App("OutErr", emit.N(uint64(o.Config.Cores)), emit.N(o.ErrCls), emit.N(o.ErrSub))
+		return emit.App("OutErr", emit.N(uint64(o.Config.Cores)), emit.N(o.ErrCls), emit.N(o.ErrSub), emit.BytesList(o.Reads))
 	}
 	rs := make([]string, len(o.Results))
 	for i, r := range o.Results {
@@ -821,7 +925,7 @@ func (o Output) coq() string {
 		post[i] = emit.Pair(emit.Bytes(kv.K), v)
 	}
 	return emit.App("OutOk", emit.N(uint64(o.Config.Cores)), emit.List("result", rs), emit.List("list N * option (list N)", post),
-		emit.N(o.PostH), emit.N(o.PostTs), o.PostFee.coq(), coqN5(o.Prices), coqN5(o.Consumed))
+		emit.N(o.PostH), emit.N(o.PostTs), o.PostFee.coq(), coqN5(o.Prices), coqN5(o.Consumed), emit.BytesList(o.Reads))
 }
 
 func (s *Scenario) coq(txs []*hchain.Transaction, outs []Output) string {
@@ -840,6 +944,19 @@ func (s *Scenario) coq(txs []*hchain.Transaction, outs []Output) string {
 	uni := universeKeys()
 	return emit.App("mkCase",
 		emit.List("list N * list N", parent), emit.N(s.ParentH), emit.N(s.ParentTs), s.ParentFee.coq(), emit.Bool(s.NoHeight),
-		s.Rules.coq(), emit.Z(s.BlockTs), emit.N(s.BlockH), emit.Bool(s.RootOK), emit.Bool(s.TooLate), emit.Bool(s.VWDup),
-		emit.List("tx", txc), emit.BytesList(uni), emit.List("output", oc))
+		s.Rules.coq(), emit.Z(s.BlockTs), emit.N(s.BlockH), emit.Bool(s.RootOK), emit.Bool(s.TooLate), emit.Bool(s.VWDup), failKeyCoq(s.FailKey),
+		emit.List("tx", txc), emit.BytesList(uni), emit.BytesList(metaKeys()), emit.List("output", oc))
+}
+
+func failKeyCoq(k []byte) string {
+	if k == nil {
+		return "(@None (list N))"
+	}
+	return emit.Some(emit.Bytes(k))
+}
+
+// metadata keys in the order Processor.createBlockContext reads them
+func metaKeys() [][]byte {
+	mm := metadata.NewDefaultManager()
+	return [][]byte{hchain.HeightKey(mm.HeightPrefix()), hchain.TimestampKey(mm.TimestampPrefix()), hchain.FeeKey(mm.FeePrefix())}
 }
